@@ -40,6 +40,12 @@ CLAIMED = {
  "C20": ("DESIGN.md §4 C20",
          "Deductive proof on the real trait-model code: parentpb.traitUnion/traitRemove return the sorted duplicate-free union/difference for any sorted list and any names, without writing the list they were given (loop invariants over sort.Search's contract); vendingpb.updateStock/DispenseInstantly add to used and subtract from remaining floored at zero, each in its own unit, report conversion errors, never dereference an absent quantity; WithConsumablesOption/WithInventoryOption write only their own option list; unitpb.Convert32/Convert round trip within a category and report cross-category pairs; fanspeedpb.DeriveValues leaves preset, index and percentage describing the same preset (or none) for every preset list including the empty one, with precedence preset > index > percentage, and validateUpdate accepts exactly known presets; modepb.relativeAdjustment steps with mathematical wrap-around for every int32 step, NewModelModes keeps its argument; enter/leave totals, meter start/end times and the publication receipt/acknowledge rules hold for every stored value.",
          "Eleven genuine defects were found and repaired (known_findings.json, 'fixed'). Per-function contracts: the composition through Collection.Update/Value.Set (interceptor order, stored = returned) is C01's contract and is trusted here (NewValue, UpdatePublication, Clock are trusted stubs listed in the evidence). Float arithmetic is real arithmetic without rounding, so unit round trips are exact in the model. relativeAdjustment is proved for requests with at most one relative entry (entries are independent; stated bound). Publication version hashing (md5/fmt) is havocked."),
+ "C01": ("DESIGN.md §4 C01",
+         "Deductive proof on the real code, for every store content, every request and every combination of options (each option closure is proved to write exactly its own request field; requests are built by ComputeRead/WriteConfig over those), that one call at a time Value and Collection behave as a register and an id->message map: Value.get/Get return the stored value or its projection and change nothing; Value.set stores a fresh message, returns it and publishes exactly one event, and a failing set changes nothing and publishes nothing; Collection.Get answers from the (intercepted) id; itemSlice/List return exactly the items the request does not exclude, each once, List strictly sorted by id (permutation reasoning over sort.Slice's contract, completeness included); Collection.Update/Add/Delete return what the map semantics says, leave every other entry untouched, publish exactly one ADD/UPDATE/REMOVE event carrying old and new value and the stored change time, and a failing call (not found, already exists, precondition, invalid mask) changes nothing and publishes nothing; a generated id is non-empty, unused and finds the item again through the id interceptor.",
+         "One genuine defect found and repaired (generated id stored under its raw instead of its intercepted form). Message contents are abstract (see C05/C06). Preconditions assumed of callers: options are non-nil, a collection holds one message type, the resource was built by its constructor (wfValue/wfColl). The reference model is the contract itself; sequences of calls compose through the representation invariant wfColl, which every operation re-establishes (proved)."),
+ "C02": ("DESIGN.md §4 C02",
+         "Deductive proof on the real code in interference mode: (1) GetAndUpdate, verified against arbitrary get/change/save callbacks (get's answers are unconstrained, i.e. any interleaving of other writers between its critical sections): a successful call re-reads under the write lock, the re-read value is proto.Equal to the value the change was computed from, save runs in that same lock acquisition (lock-generation ghost), with exactly that new value, exactly once; a failing call saves nothing; no lock is held during the change call; (2) Collection.Update and Collection.Delete with the map made arbitrary again at every lock acquisition (plus the lock invariant): the entry a commit overwrites holds a value Equal to the one the change saw, an id that was absent is still absent at commit, Delete removes exactly the item its preconditions were evaluated on in the critical section that re-checked it, and every commit installs a new item instead of editing one (Delete's pointer comparison relies on it); (3) the guarded-by discipline of C11.",
+         "One genuine defect found and repaired (two concurrent Adds of one id both succeeded). The step from 'validate+commit in one exclusive section against the re-read state, losers change nothing' to linearizability of whole histories is the standard argument for optimistic concurrency and is stated in DESIGN.md, not machine-checked. Value.set relies on GetAndUpdate's contract plus its (sequentially proved) get/save closures. Interference is modelled at lock acquisitions of the resource's own mutex; callbacks are assumed not to touch the resource's guarded state except through its API."),
 }
 
 NOT_APPLICABLE = {
